@@ -1,5 +1,5 @@
 /- Driver glue for C05.
-   (c05.sharpen CFG (prims…) (vars…) ("constraint" … in processing order) (none)|(some "sketch")
+   (c05.sharpen ("C05-F3" …: fixes the model follows) CFG (prims…) (vars…) ("constraint" … in processing order) (none)|(some "sketch")
                 (program …) nonce)
      → (ok (parsed…) parsedSketch (base rules) (wf sigFunctional exact) (steps…)
            modelAccept modelReadable spec baseAccept inGrammar nonce)
@@ -109,9 +109,11 @@ def optTokSexp : Option (Tok Sym) → Sexp
   | none => .atom "error"
 
 def handle : Sexp → Option Sexp
-  | .list [.atom "c05.sharpen", g, .list prims, .list vars, .list cs, sk, .list progs, nonce] => do
+  | .list [.atom "c05.sharpen", .list flags, g, .list prims, .list vars, .list cs, sk, .list progs, nonce] => do
       let G ← decCFG g
-      let Sy : Syms := { prims := ← allSome decSym prims, vars := ← allSome decSym vars }
+      let fl ← allSome Sexp.string? flags
+      let Sy : Syms := { prims := ← allSome decSym prims, vars := ← allSome decSym vars,
+                         fixF3 := fl.contains "C05-F3", fixF4 := fl.contains "C05-F4" }
       let cs ← allSome Sexp.string? cs
       let ts ← allSome decProg progs
       let parsed := cs.map (fun c => parse Sy c.toList)
